@@ -609,6 +609,19 @@ pub fn damage(ren: &Rendering, fragment: bool) -> Vec<(String, usize, String)> {
         for bad in ["&#0;", "&#1;", "&#xB;", "&#xD800;", "&#xFFFE;", "&#x110000;", "&#+65;", "&#x+41;", "&#6 5;", "&#xG;", "&#;", "&#x;", "&#-1;", "&foo;", "&amp", "&#12", "&"] {
             out.push((format!("bad-reference-attribute:{}", bad), e.attrs_at, ins(e.attrs_at, &format!(" r='x{}y'", bad))));
         }
+        // a reference that never ends (or names no entity), followed by a long tail of multi-byte characters at every alignment:
+        // whatever the parser does with the offending name (copy it into the error, cut it, measure it) happens on character boundaries
+        for k in 0..4usize {
+            for ch in ['\u{e9}', '\u{20ac}', '\u{1f600}'] {
+                let tail: String = "a".repeat(k) + &ch.to_string().repeat(24);
+                out.push((format!("long-unterminated-reference-attribute:{}:{:x}", k, ch as u32), e.attrs_at, ins(e.attrs_at, &format!(" r='x&{}'", tail))));
+                out.push((format!("long-unknown-entity-attribute:{}:{:x}", k, ch as u32), e.attrs_at, ins(e.attrs_at, &format!(" r='x&{};y'", tail))));
+                if let Some(c) = e.content_start {
+                    out.push((format!("long-unterminated-reference-content:{}:{:x}", k, ch as u32), c, ins(c, &format!("x&{}", tail))));
+                    out.push((format!("long-unknown-entity-content:{}:{:x}", k, ch as u32), c, ins(c, &format!("x&{};y", tail))));
+                }
+            }
+        }
         if let Some(c) = e.content_start {
             out.push(("stray-end-tag".into(), c, ins(c, "</zz9>")));
             out.push(("raw-lt-in-content".into(), c, ins(c, "a < b")));
